@@ -342,9 +342,21 @@ func TestVerifC15(t *testing.T) {
 	syn["Punct.txt"] = "--- *** ---\n"
 	syn["Shebang.txt"] = "#!/bin/sh\n"
 	syn["One.txt"] = "license\n"
+	{
+		// a license several times larger than the largest shipped one (its search set serialises to
+		// more than a quarter of a megabyte)
+		var sb strings.Builder
+		for k := 0; k < 9000; k++ {
+			fmt.Fprintf(&sb, "term%c%c%c ", 'a'+k/676%26, 'a'+k/26%26, 'a'+k%26)
+			if k%12 == 11 {
+				sb.WriteString("of the license\n")
+			}
+		}
+		syn["Big.txt"] = sb.String()
+	}
 	for oi, files := range [][]string{
 		{"MIT.txt", "Notice-Only.txt", "ISC.txt"}, {"Notice-Only.txt", "MIT.txt", "ISC.txt"}, {"MIT.txt", "ISC.txt", "Notice-Only.txt"},
-		{"Blank.txt", "MIT.txt", "Punct.txt", "ISC.txt", "Shebang.txt"}, {"One.txt", "MIT.txt"}} {
+		{"Blank.txt", "MIT.txt", "Punct.txt", "ISC.txt", "Shebang.txt"}, {"One.txt", "MIT.txt"}, {"MIT.txt", "Big.txt"}} {
 		id := fmt.Sprintf("emptyish%d", oi)
 		what := ""
 		var lc *licenseclassifier.License
@@ -356,7 +368,7 @@ func TestVerifC15(t *testing.T) {
 			what = "archive does not load: " + err.Error()
 		} else {
 			dc := vdirect(files)
-			for _, f := range []string{"MIT.txt", "ISC.txt"} {
+			for _, f := range []string{"MIT.txt", "ISC.txt", "Big.txt"} {
 				has := false
 				for _, g := range files {
 					has = has || g == f
@@ -375,6 +387,11 @@ func TestVerifC15(t *testing.T) {
 					}
 				}
 				q := strings.Join(ws, " ")
+				if f == "Big.txt" {
+					// verbatim inside other text: an edited copy of a text this long would send the diff
+					// library past its one-second deadline (a coarser script, not a function of the input)
+					q = "some intro words about the license " + txt + " and an outro"
+				}
 				var wantM stringclassifier.Matches
 				for _, v := range dc.MultipleMatch(vnormalize(q)) {
 					if lc.WithinConfidenceThreshold(v.Confidence) {
@@ -613,6 +630,11 @@ func TestVerifC14License(t *testing.T) {
 	if vthorough() {
 		G = 32
 	}
+	// the concurrent calls are the FIRST calls on a License loaded afresh from the same archive:
+	// whatever a loaded License builds lazily is built while the goroutines overlap
+	if lc2, err := varchive(files); err == nil {
+		lc = lc2
+	}
 	var wg sync.WaitGroup
 	var mu sync.Mutex
 	bad := ""
@@ -642,5 +664,41 @@ func TestVerifC14License(t *testing.T) {
 	}
 	wg.Wait()
 	o.verdict("C14", "lic_concurrent", bad == "", true, "lic_concurrent", map[string]interface{}{"what": bad, "goroutines": G, "queries": len(queries)})
+	// first calls behind a start barrier, on a License loaded afresh for every round, each goroutine
+	// beginning with MultipleMatch of an EDITED text (no verbatim occurrence: the search sets of all
+	// known values are consulted): nothing but the classifier's own synchronisation orders them
+	rounds := 6
+	if vthorough() {
+		rounds = 40
+	}
+	bad2 := ""
+	for round := 0; round < rounds; round++ {
+		lcr, err := varchive(files)
+		if err != nil {
+			bad2 = err.Error()
+			break
+		}
+		start := make(chan struct{})
+		var wg2 sync.WaitGroup
+		for g := 0; g < 8; g++ {
+			wg2.Add(1)
+			go func(g int) {
+				defer wg2.Done()
+				i := 1 + 2*((g+round)%len(files)) // the edited copies sit at the odd positions
+				<-start
+				got := vshow(lcr.MultipleMatch(queries[i], true))
+				if got != wantM[i] {
+					mu.Lock()
+					if bad2 == "" {
+						bad2 = fmt.Sprintf("round %d goroutine %d query %d: concurrent first call %s, sequential %s", round, g, i, got, wantM[i])
+					}
+					mu.Unlock()
+				}
+			}(g)
+		}
+		close(start)
+		wg2.Wait()
+	}
+	o.verdict("C14", "lic_first_calls", bad2 == "", true, "lic_first_calls", map[string]interface{}{"what": bad2, "rounds": rounds})
 	o.stat("C14", map[string]interface{}{"license_queries": len(queries), "license_goroutines": G})
 }
